@@ -186,7 +186,7 @@ pub fn obs_case(data: &[u8], flavour: Fl) -> ObsCase {
             12 => ObsOp::Upgrade(ix),
             13 => ObsOp::CloneWeak(ix),
             14 => ObsOp::DropWeak(ix),
-            15 => ObsOp::IntoShared,
+            15 => if ix & 1 == 0 { ObsOp::IntoShared } else { ObsOp::CloneFromOther(ix) },
             16 | 17 => ObsOp::Subscribe(ix),
             18 => ObsOp::SubscribeReset(ix),
             19 => ObsOp::SubClone(ix),
